@@ -323,6 +323,8 @@ def _count_calls(e):
 
 
 SHORT = {
+    "core::str::<impl str>::len": "len",
+    "alloc::string::String::len": "len",
     "core::option::Option::<T>::is_some": "is_some",
     "core::option::Option::<T>::is_none": "is_none",
     "core::result::Result::<T, E>::is_ok": "is_ok",
@@ -456,6 +458,15 @@ def _const_int(e):
     return int(m.group(1)) if m else None
 
 
+IS_EMPTY = {
+    "alloc::vec::Vec::<T, A>::is_empty": "alloc::vec::Vec::<T, A>::len",
+    "core::slice::<impl [T]>::is_empty": "core::slice::<impl [T]>::len",
+    "core::str::<impl str>::is_empty": "core::str::<impl str>::len",
+    "alloc::string::String::is_empty": "alloc::string::String::len",
+    "syn::punctuated::Punctuated::<T, P>::is_empty": "syn::punctuated::Punctuated::<T, P>::len",
+}
+
+
 def _const_bool(text):
     if text in ("const true", "true"):
         return True
@@ -482,6 +493,9 @@ def normalise_atom(expr, value):
                 expr = ("call", "core::result::Result::<T, E>::is_ok", expr[2], expr[3] if len(expr) > 3 else ())
                 value = not value
                 continue
+            if c in IS_EMPTY and isinstance(value, bool):
+                # `x.is_empty()` / `x.len() == 0` / `match x.len() { 0 => .. }` are one test
+                return ("call", IS_EMPTY[c], expr[2], ()), (0 if value else ("not-in", (0,)))
             if c == "is_variant" and isinstance(value, bool):
                 v = expr[2][1][1]
                 return ("discr", strip_transparent(expr[2][0])), (v if value else ("not-in", (v,)))
